@@ -162,3 +162,137 @@ func strKeys(m map[string]bool) []string {
 	sort.Strings(out)
 	return out
 }
+
+// c10SavedBeforeFirstRun (R16): what is put back before a second run is what was there before the first.
+// Where a layout function stores into a box field a value it loaded earlier from that same field (a restore) and
+// the same sizing function is called both before and after that store, the load precedes the first call — a value
+// saved after the first run is already the resolved one (auto margins are gone), and the second run is not a re-run.
+func c10SavedBeforeFirstRun(c *core.Check) {
+	r := c.Rule("R16", "restores restore the state before the first run: in html/layout, when a field is stored with a value loaded earlier from the same field and one function is called both before and after that store, the load comes before the first of these calls", 6)
+	savedBeforeFirstRunRule(c, r, "")
+}
+
+// c12PageMarginsRerun (R10): the same rule for the page boxes: the vertical auto margins of an @page rule are
+// recomputed after a min-/max-height clamp only if handleMinMaxHeight restores the margins it saved before the run.
+func c12PageMarginsRerun(c *core.Check) {
+	r := c.Rule("R10", "auto margins of a page are recomputed after a min-/max-height clamp: in handleMinMaxHeight the margins stored back before the second run were loaded before the first (shared with C10.R16)", 2)
+	savedBeforeFirstRunRule(c, r, "handleMinMaxHeight")
+}
+
+func savedBeforeFirstRunRule(c *core.Check, r *core.Rule, only string) {
+	p := c.Prog
+	n := 0
+	calleeKey := func(call *ssa.Call) string {
+		if g := call.Call.StaticCallee(); g != nil {
+			return g.String()
+		}
+		if call.Call.IsInvoke() {
+			return ""
+		}
+		return "dyn:" + valueText(call.Call.Value)
+	}
+	before := func(a, b ssa.Instruction) bool {
+		if a.Block() == b.Block() {
+			for _, in := range a.Block().Instrs {
+				if in == a {
+					return true
+				}
+				if in == b {
+					return false
+				}
+			}
+		}
+		return a.Block().Dominates(b.Block())
+	}
+	for _, fn := range p.FuncsOfPkg("html/layout") {
+		if fn.Blocks == nil || only != "" && !strings.HasPrefix(fn.Name(), only) {
+			continue
+		}
+		var calls []*ssa.Call
+		core.Instrs(fn, func(in ssa.Instruction) {
+			if call, ok := in.(*ssa.Call); ok && calleeKey(call) != "" {
+				if _, isBuiltin := call.Call.Value.(*ssa.Builtin); !isBuiltin {
+					calls = append(calls, call)
+				}
+			}
+		})
+		k := 0
+		core.Instrs(fn, func(in ssa.Instruction) {
+			st, ok := in.(*ssa.Store)
+			if !ok {
+				return
+			}
+			fa, ok := st.Addr.(*ssa.FieldAddr)
+			if !ok {
+				return
+			}
+			ld, ok := st.Val.(*ssa.UnOp)
+			if !ok || ld.Op != token.MUL {
+				return
+			}
+			fa2, ok := ld.X.(*ssa.FieldAddr)
+			if !ok || fa2.Field != fa.Field || valueText(fa2.X) != valueText(fa.X) || ld.Block() == nil {
+				return
+			}
+			if !before(ld, st) {
+				return
+			}
+			// a function called before and after the store: the same one, or two functions that both write the field
+			field := core.FieldName(fa)
+			var first *ssa.Call
+			for _, c1 := range calls {
+				if !before(c1, st) {
+					continue
+				}
+				for _, c2 := range calls {
+					if c2 == c1 || !before(st, c2) {
+						continue
+					}
+					same := calleeKey(c2) == calleeKey(c1)
+					if !same && writesField(c1.Call.StaticCallee(), field, 0) && writesField(c2.Call.StaticCallee(), field, 0) {
+						same = true
+					}
+					if same && (first == nil || before(c1, first)) {
+						first = c1
+					}
+				}
+			}
+			if first == nil {
+				return
+			}
+			n++
+			k++
+			key := fmt.Sprintf("%s | %s restored before a second run #%d", core.FuncName(fn), core.FieldName(fa), k)
+			r.Cond(before(ld, first), key, p.Pos(st.Pos()), "saved before the first run", "the value stored back was loaded after the first run of "+core.CalleeName(first)+": it is already the resolved value (an auto margin is gone) and the second run computes from it")
+		})
+	}
+	if n == 0 {
+		r.Unknown("html/layout | restores around a re-run", "-", "none found")
+	}
+}
+
+// writesField: g (or a function it calls directly, two levels) stores into a field of that name.
+func writesField(g *ssa.Function, field string, depth int) bool {
+	if g == nil || g.Blocks == nil || depth > 2 {
+		return false
+	}
+	found := false
+	core.Instrs(g, func(in ssa.Instruction) {
+		if found {
+			return
+		}
+		switch x := in.(type) {
+		case *ssa.Store:
+			if fa, ok := x.Addr.(*ssa.FieldAddr); ok && core.FieldName(fa) == field {
+				found = true
+			}
+		case *ssa.Call:
+			if callee := x.Call.StaticCallee(); callee != nil && callee != g && callee.Pkg == g.Pkg {
+				if writesField(callee, field, depth+1) {
+					found = true
+				}
+			}
+		}
+	})
+	return found
+}
